@@ -277,8 +277,9 @@ def runOps : S → List Op → List (S × Out)
   | _, [] => []
   | s, op :: rest => let r := stepOp s op; r :: runOps r.1 rest
 
-/-! ## what the monitor reads (`Driver/Upmon.lean`'s parsers applied to the op line and to `Driver/Upmodel.lean`'s
-printed line before ` | `; checked on every shape by `#guard` in `KAT/AfAns.lean`) -/
+/-! ## what the monitor reads (`Driver/Upmon.lean`'s parsers applied to the op line and to the L1 tokens
+`Driver/Upmodel.lean` prints: proved in `Proofs/AfAns.lean` — `up_parseKind`, `up_parseAns_l1Toks`; the cut of the
+printed line into tokens is tested by `#guard` in `KAT/AfAns.lean`) -/
 
 open Percival.Spec.UpMon (Kind Ans)
 
